@@ -297,17 +297,41 @@ def decInt? (s : String) : Option Int :=
   | '-' :: cs => (Spec.Scalar.digitsVal 10 cs).map (fun n => -(n : Int))
   | cs => (Spec.Scalar.digitsVal 10 cs).map (fun n => (n : Int))
 
+/-- the digits part of `utils::strip_leading_zeros`: leading zeros dropped, a text of zeros keeps its last digit -/
+def stripDigits (digits : List Char) : List Char :=
+  match digits.dropWhile (· == '0') with
+  | [] => (match digits.getLast? with | some c => [c] | none => [])
+  | r => r
+
+/-- `utils::strip_leading_zeros` (fix d520d30): `std::from_chars` accepts leading zeros but a
+    C++ literal with a leading zero is octal, so superfluous zeros are dropped before the
+    text is pasted; the sign is kept -/
+def stripLeadingZeros (value : String) : String :=
+  match value.toList with
+  | '-' :: digits => String.ofList ('-' :: stripDigits digits)
+  | digits => String.ofList (stripDigits digits)
+
 /-- `utils::to_integer_literal` -/
 def toIntegerLiteral (value prim : String) : String :=
   if prim = "int64" then
     match decInt? value with
-    | some v => if v < -9223372036854775807 then s!"-9223372036854775807 {v + 9223372036854775807}" else value
-    | none => value
+    | some v =>
+      if v < -9223372036854775807 then s!"-9223372036854775807 {v + 9223372036854775807}"
+      else stripLeadingZeros value
+    | none => stripLeadingZeros value
   else if prim = "uint64" then
     match decInt? value with
-    | some v => if v > 9223372036854775807 then value ++ "UL" else value
-    | none => value
-  else value
+    | some v => if v > 9223372036854775807 then stripLeadingZeros value ++ "UL" else stripLeadingZeros value
+    | none => stripLeadingZeros value
+  else stripLeadingZeros value
+
+open Sbepp.Spec.Scalar in
+/-- `value_fits_into_type` for integer types: `std::from_chars` into the C++ type consumes
+    the whole text (optional `-`, decimal digits, leading zeros allowed) and the value is in range -/
+def valueFits (p : Prim) (lit : String) : Bool :=
+  match decInt? lit, primCTy? p with
+  | some v, some t => CVal.inRange t v
+  | _, _ => false
 
 open Sbepp.Spec.Scalar in
 /-- object representation of an explicit `minValue`/`maxValue`/`nullValue`
@@ -321,6 +345,7 @@ def literalValue (p : Prim) (lit : String) : Except String String :=
     else if lit = "INF" ∨ lit = "+INF" then .ok (num ((2 ^ eb - 1) * 2 ^ mb))
     else if lit = "-INF" then .ok (num (2 ^ (eb + mb) + (2 ^ eb - 1) * 2 ^ mb))
     else .ok ("lit:" ++ SExp.hex (lit.toUTF8.toList.map UInt8.toNat))
+  else if !valueFits p lit then .error s!"value `{lit}` cannot be represented by type `{p.name}`"
   else
     match evalLit p (toIntegerLiteral lit p.name) with
     | some b => .ok (num b)
@@ -355,16 +380,19 @@ def minMaxNull (t : TypeDef) : Except String (List KV) :=
         else .ok [("min_value", mn), ("max_value", mx)]
   else .ok []
 
-/-- numeric value of an enumerator (`static_cast` of `E::name` to the underlying type) -/
+/-- numeric value of an enumerator (`static_cast` of `E::name` to the underlying type); the
+    text is pasted through `to_integer_literal`, so leading zeros do not change the value -/
 def enumValueText (prim : String) (value : String) : Except String String :=
   if prim = "char" then
     match value.toList with
     | [c] => .ok (toString c.toNat)
     | _ => .error s!"value `{value}` cannot be represented by type `char`"
   else
-    match decInt? value with
-    | some v => .ok (toString v)
-    | none => .error s!"value `{value}` is not a number"
+    match Prim.ofName? prim, decInt? value with
+    | some p, some v =>
+      if valueFits p value then .ok (toString v)
+      else .error s!"value `{value}` cannot be represented by type `{prim}`"
+    | _, _ => .error s!"value `{value}` cannot be represented by type `{prim}`"
 
 /-- derived traits of a non-ref encoding; `inComp` = `context.offset_in_composite` -/
 def encDerivedKVs (types : List Elem) (inComp : Option Nat) : Elem → Except String (List KV)
